@@ -36,6 +36,9 @@ pub struct L2Cfg {
     pub seed: u64,
     /// offer every single-input step also in the variant "crashes at its first durable write, write lost"
     pub crashes: bool,
+    /// the faulty leader also sends proposals whose justification is signed by its key alone (C02's run;
+    /// each is a real handler execution per (local state, forged input), which costs the other runs a BFS level)
+    pub forged: bool,
     /// violation classes of `check_state` that this run does not report (they belong to another
     /// property's check, which runs the same search)
     pub ignore: &'static [&'static str],
@@ -47,6 +50,7 @@ pub struct Sys {
     pub correct: Vec<usize>,
     pub max_view: u64,
     pub crashes: bool,
+    pub forged: bool,
 }
 
 #[derive(Clone, PartialEq, Eq, Hash, Debug)]
@@ -174,7 +178,7 @@ pub fn system(cfg: &L2Cfg) -> Sys {
     let c = util::committee_fb(cfg.seed, &cfg.weights, if cfg.faulty == 2 { 3 } else { 0 });
     assert_eq!(c.weights[cfg.faulty], 1, "the faulty validator must have weight 1");
     let correct: Vec<usize> = (0..c.n()).filter(|i| *i != cfg.faulty).collect();
-    Sys { w: World { c, proposals: vec![Payload(vec![0x58]), Payload(vec![0x59, 1])], invalid_payload: Payload(vec![0xBA, 0xD0]) }, z: cfg.faulty, correct, max_view: cfg.max_view, crashes: cfg.crashes }
+    Sys { w: World { c, proposals: vec![Payload(vec![0x58]), Payload(vec![0x59, 1])], invalid_payload: Payload(vec![0xBA, 0xD0]) }, z: cfg.faulty, correct, max_view: cfg.max_view, crashes: cfg.crashes, forged: cfg.forged }
 }
 
 /// Certificates the adversary can derive from the pool (plus its own key).
@@ -512,7 +516,7 @@ fn actions_uncached(sys: &Sys, t: &Tables, g: &G, only: usize) -> Vec<Action> {
         // view signed by the faulty key alone (a replica that already holds a certificate for that view must
         // still check the one it is given)
         for jv in view.max(1)..=sys.max_view + 1 {
-            if w.leader(jv) != sys.z {
+            if !sys.forged || w.leader(jv) != sys.z {
                 continue;
             }
             let forged_t = v2::ProposalJustification::Timeout(w.timeout_qc(jv - 1, &[(sys.z, w.timeout_vote(jv - 1, None, None))]));
